@@ -260,3 +260,269 @@ Proof.
   - apply url_normalize_no; [reflexivity|lia].
   - apply url_normalize_no; [reflexivity|lia].
 Qed.
+
+(* ---------- the tokenizer over concatenations ---------- *)
+Lemma trun_app : forall a st b,
+  trun st (a +++ b) =
+  (let '(s1, t1) := trun st a in let '(s2, t2) := trun s1 b in (s2, (t1 ++ t2)%list)).
+Proof.
+  induction a as [|c a IH]; intros st b.
+  - cbn. destruct (trun st b). reflexivity.
+  - cbn [String.append trun]. destruct (tstep st c) as [s1 t1]. rewrite IH.
+    destruct (trun s1 a) as [s2 t2]. destruct (trun s2 b) as [s3 t3]. now rewrite app_assoc.
+Qed.
+
+Lemma srev_acc_app a b acc : srev_acc (a +++ b) acc = srev_acc b (srev_acc a acc).
+Proof. revert acc; induction a as [|c a IH]; intros acc; cbn; [reflexivity|apply IH]. Qed.
+
+Lemma srev_acc_spec a acc : srev_acc a acc = srev a +++ acc.
+Proof.
+  unfold srev. revert acc; induction a as [|c a IH]; intros acc; [reflexivity|].
+  cbn [srev_acc]. rewrite IH, (IH (String c EmptyString)). now rewrite app_assoc_s.
+Qed.
+
+Lemma srev_app a b : srev (a +++ b) = srev b +++ srev a.
+Proof. unfold srev. rewrite srev_acc_app, srev_acc_spec. reflexivity. Qed.
+
+Lemma srev_involutive a : srev (srev a) = a.
+Proof.
+  induction a as [|c a IH]; [reflexivity|].
+  change (String c a) with (String c EmptyString +++ a) at 1. rewrite srev_app, srev_app, IH. reflexivity.
+Qed.
+
+(* inside a double-quoted attribute value, bytes other than the quote are collected *)
+Lemma trun_value n a an : forall v raw,
+  contains_chr 34 v = false -> trun (SValueDQ n a an raw) v = (SValueDQ n a an (srev_acc v raw), []).
+Proof.
+  induction v as [|c v IH]; intros raw H; [reflexivity|].
+  cbn [contains_chr] in H. apply orb_false_iff in H as [H1 H2].
+  cbn [trun tstep]. rewrite H1. rewrite (IH _ H2). reflexivity.
+Qed.
+
+(* in the data state, bytes other than '<' are collected *)
+Lemma trun_text : forall v t,
+  contains_chr 60 v = false -> trun (SData t) v = (SData (srev_acc v t), []).
+Proof.
+  induction v as [|c v IH]; intros t H; [reflexivity|].
+  cbn [contains_chr] in H. apply orb_false_iff in H as [H1 H2].
+  cbn [trun tstep]. rewrite H1. rewrite (IH _ H2). reflexivity.
+Qed.
+
+(* the closing quote ends the value; the value is the decoded text *)
+Lemma trun_close_value n a an raw rest :
+  trun (SValueDQ n a an raw) (String (chr 34) rest) =
+  trun (SAfterValue n ((srev an, decode_charrefs (srev raw)) :: a)) rest.
+Proof. cbn [trun tstep]. change (code (chr 34) =? 34) with true. cbn iota. destruct (trun _ rest). reflexivity. Qed.
+
+(* a slot: value text v (no quote) followed by the closing quote *)
+Lemma trun_slot n a an v rest :
+  contains_chr 34 v = false ->
+  trun (SValueDQ n a an EmptyString) (v +++ String (chr 34) rest) =
+  trun (SAfterValue n ((srev an, decode_charrefs v) :: a)) rest.
+Proof.
+  intros H. rewrite trun_app, (trun_value _ _ _ _ _ H), trun_close_value.
+  rewrite srev_acc_spec, app_nil_r_s, srev_involutive.
+  destruct (trun _ rest). reflexivity.
+Qed.
+
+(* ---------- the forms ---------- *)
+Definition inert_text (v : string) : Prop := contains_chr 34 v = false /\ contains_chr 60 v = false.
+
+Lemma attr_escape_inert_text s : inert_text (attr_escape s).
+Proof. destruct (attr_escape_inert s) as (A & B & _). split; assumption. Qed.
+Lemma url_attr_inert_text s : inert_text (url_attr s).
+Proof. destruct (url_attr_inert s) as (A & B & _). split; assumption. Qed.
+
+(* execute a literal piece of the template from the current (closed up to the
+   abstracted decoded values) state *)
+Ltac run_lit :=
+  rewrite trun_app;
+  match goal with
+  | |- context [trun ?st ?lit] =>
+      let r := eval vm_compute in (trun st lit) in
+      change (trun st lit) with r
+  end; cbv beta iota.
+
+Ltac run_slot H :=
+  rewrite (trun_slot _ _ _ _ _ (proj1 H)).
+
+(* the SP forms: a generic statement over the three interpolated texts *)
+Definition sp_form_text (msg_name form_id v1 v2 v3 : string) : string :=
+  "<form method=""post"" action=""" +++ v1 +++ String (chr 34)
+  ((" id=""" +++ form_id +++ """><input type=""hidden"" name=""" +++ msg_name +++ """ value=""") +++ v2 +++ String (chr 34)
+  (" /><input type=""hidden"" name=""RelayState"" value=""" +++ v3 +++ String (chr 34)
+  (" /><input id=""SAMLSubmitButton"" type=""submit"" value=""Submit"" /></form><script>document.getElementById('SAMLSubmitButton').style.visibility=""hidden"";document.getElementById('"
+   +++ form_id +++ "').submit();</script>"))).
+
+Lemma sp_form_is_text msg_name form_id d :
+  sp_form msg_name form_id d =
+  sp_form_text msg_name form_id (url_attr (fd_url d)) (attr_escape (fd_msg d)) (attr_escape (fd_relay d)).
+Proof. unfold sp_form, sp_form_text. rewrite !app_assoc_s. reflexivity. Qed.
+
+Lemma sp_form_req_tokens v1 v2 v3 :
+  inert_text v1 -> inert_text v2 -> inert_text v3 ->
+  trun (SData EmptyString) (sp_form_text "SAMLRequest" "SAMLRequestForm" v1 v2 v3) =
+  (SData EmptyString,
+   sp_form_tokens "SAMLRequest" "SAMLRequestForm" (decode_charrefs v1) (decode_charrefs v2) (decode_charrefs v3)).
+Proof.
+  intros H1 H2 H3. unfold sp_form_text.
+  run_lit. run_slot H1. generalize (decode_charrefs v1) as w1; intros w1.
+  run_lit. run_slot H2. generalize (decode_charrefs v2) as w2; intros w2.
+  run_lit. run_slot H3. generalize (decode_charrefs v3) as w3; intros w3.
+  vm_compute. reflexivity.
+Qed.
+
+Lemma sp_form_resp_tokens v1 v2 v3 :
+  inert_text v1 -> inert_text v2 -> inert_text v3 ->
+  trun (SData EmptyString) (sp_form_text "SAMLResponse" "SAMLResponseForm" v1 v2 v3) =
+  (SData EmptyString,
+   sp_form_tokens "SAMLResponse" "SAMLResponseForm" (decode_charrefs v1) (decode_charrefs v2) (decode_charrefs v3)).
+Proof.
+  intros H1 H2 H3. unfold sp_form_text.
+  run_lit. run_slot H1. generalize (decode_charrefs v1) as w1; intros w1.
+  run_lit. run_slot H2. generalize (decode_charrefs v2) as w2; intros w2.
+  run_lit. run_slot H3. generalize (decode_charrefs v3) as w3; intros w3.
+  vm_compute. reflexivity.
+Qed.
+
+(* the IdP response form *)
+Definition idp_response_text (v1 v2 v3 : string) : string :=
+  "<html><form method=""post"" action=""" +++ v1 +++ String (chr 34)
+  (" id=""SAMLResponseForm""><input type=""hidden"" name=""SAMLResponse"" value=""" +++ v2 +++ String (chr 34)
+  (" /><input type=""hidden"" name=""RelayState"" value=""" +++ v3 +++ String (chr 34)
+  " /><input id=""SAMLSubmitButton"" type=""submit"" value=""Continue"" /></form><script>document.getElementById('SAMLSubmitButton').style.visibility='hidden';</script><script>document.getElementById('SAMLResponseForm').submit();</script></html>")).
+
+Lemma idp_response_is_text d :
+  idp_response_form d = idp_response_text (url_attr (fd_url d)) (attr_escape (fd_msg d)) (attr_escape (fd_relay d)).
+Proof. unfold idp_response_form, idp_response_text. rewrite ?app_assoc_s. reflexivity. Qed.
+
+Lemma idp_response_tokens v1 v2 v3 :
+  inert_text v1 -> inert_text v2 -> inert_text v3 ->
+  trun (SData EmptyString) (idp_response_text v1 v2 v3) =
+  (SData EmptyString, intended_form FIdpResponse (decode_charrefs v1) (decode_charrefs v2) (decode_charrefs v3) EmptyString).
+Proof.
+  intros H1 H2 H3. unfold idp_response_text.
+  run_lit. run_slot H1. generalize (decode_charrefs v1) as w1; intros w1.
+  run_lit. run_slot H2. generalize (decode_charrefs v2) as w2; intros w2.
+  run_lit. run_slot H3. generalize (decode_charrefs v3) as w3; intros w3.
+  vm_compute. reflexivity.
+Qed.
+
+(* the IdP login form: the toast is element text *)
+Lemma srev_acc_nonempty : forall r c a, exists c' t', srev_acc r (String c a) = String c' t'.
+Proof. induction r as [|x r IH]; intros c a; cbn [srev_acc]; [eauto|apply IH]. Qed.
+
+Lemma flush_text_rev v :
+  flush_text (srev_acc v EmptyString) = if nonempty v then [TText (decode_charrefs v)] else [].
+Proof.
+  destruct v as [|c r]; [reflexivity|]. cbn [nonempty].
+  pose proof (srev_involutive (String c r)) as Hv. unfold srev at 2 in Hv.
+  cbn [srev_acc] in *. destruct (srev_acc_nonempty r c EmptyString) as (c' & t' & E).
+  rewrite E in *. cbn [flush_text]. now rewrite Hv.
+Qed.
+
+Lemma trun_text_slot v rest :
+  inert_text v ->
+  trun (SData EmptyString) (v +++ String (chr 60) rest) =
+  (let '(s2, t2) := trun STagOpen rest in
+   (s2, ((if nonempty v then [TText (decode_charrefs v)] else []) ++ t2)%list)).
+Proof.
+  intros [_ H]. rewrite trun_app, (trun_text _ _ H). cbn [trun tstep].
+  change (code (chr 60) =? 60) with true. cbn iota. rewrite flush_text_rev.
+  destruct (trun STagOpen rest). reflexivity.
+Qed.
+
+Definition idp_login_text (vt v1 v2 v3 : string) : string :=
+  "<html><p>" +++ vt +++ String (chr 60)
+  ("/p><form method=""post"" action=""" +++ v1 +++ String (chr 34)
+  ("><input type=""text"" name=""user"" placeholder=""user"" value="""" /><input type=""password"" name=""password"" placeholder=""password"" value="""" /><input type=""hidden"" name=""SAMLRequest"" value="""
+   +++ v2 +++ String (chr 34)
+  (" /><input type=""hidden"" name=""RelayState"" value=""" +++ v3 +++ String (chr 34)
+  " /><input type=""submit"" value=""Log In"" /></form></html>"))).
+
+Lemma idp_login_is_text d :
+  idp_login_form d =
+  idp_login_text (html_escape (fd_toast d)) (url_attr (fd_url d)) (attr_escape (fd_msg d)) (attr_escape (fd_relay d)).
+Proof. unfold idp_login_form, idp_login_text. rewrite ?app_assoc_s. reflexivity. Qed.
+
+Lemma idp_login_tokens vt v1 v2 v3 :
+  inert_text vt -> inert_text v1 -> inert_text v2 -> inert_text v3 ->
+  trun (SData EmptyString) (idp_login_text vt v1 v2 v3) =
+  (SData EmptyString,
+   ([ TStart "html" [] false; TStart "p" [] false ]
+    ++ (if nonempty vt then [TText (decode_charrefs vt)] else [])
+    ++ [ TEnd "p";
+         TStart "form" [("method", "post"); ("action", decode_charrefs v1)] false;
+         TStart "input" [("type", "text"); ("name", "user"); ("placeholder", "user"); ("value", "")] true;
+         TStart "input" [("type", "password"); ("name", "password"); ("placeholder", "password"); ("value", "")] true;
+         input_hidden "SAMLRequest" (decode_charrefs v2);
+         input_hidden "RelayState" (decode_charrefs v3);
+         TStart "input" [("type", "submit"); ("value", "Log In")] true;
+         TEnd "form"; TEnd "html" ])%list).
+Proof.
+  intros Ht H1 H2 H3. unfold idp_login_text.
+  run_lit. rewrite (trun_text_slot _ _ Ht).
+  generalize (if nonempty vt then [TText (decode_charrefs vt)] else []) as wt; intros wt.
+  run_lit. run_slot H1. generalize (decode_charrefs v1) as w1; intros w1.
+  run_lit. run_slot H2. generalize (decode_charrefs v2) as w2; intros w2.
+  run_lit. run_slot H3. generalize (decode_charrefs v3) as w3; intros w3.
+  vm_compute. reflexivity.
+Qed.
+
+(* ---------- form_structure_fixed ---------- *)
+Lemma nonempty_bytewise s : nonempty (bytewise s) = nonempty s.
+Proof.
+  destruct s as [|c s]; [reflexivity|]. cbn [bytewise nonempty].
+  assert (exists x y, esc_byte c = String x y) as (x & y & E).
+  { unfold esc_byte, repl_of, FFFD. repeat (destruct (_ =? _); [eauto|]). eauto. }
+  now rewrite E.
+Qed.
+
+Lemma nonempty_nul_to_fffd s : nonempty (nul_to_fffd s) = nonempty s.
+Proof. destruct s as [|c s]; [reflexivity|]. cbn. destruct (code c =? 0); reflexivity. Qed.
+
+Lemma tokenize_of_trun s toks :
+  trun (SData EmptyString) s = (SData EmptyString, toks) -> tokenize_form s = Some toks.
+Proof. intros H. unfold tokenize_form. rewrite H. cbn. now rewrite app_nil_r. Qed.
+
+Lemma decode_url_attr u : decode_charrefs (url_attr u) = action_value u.
+Proof. destruct (url_attr_inert u) as (_ & _ & _ & _ & _ & F & _). exact F. Qed.
+Lemma decode_attr_escape m : decode_charrefs (attr_escape m) = nul_to_fffd m.
+Proof. destruct (attr_escape_inert m) as (_ & _ & _ & _ & _ & F). exact F. Qed.
+
+(* for EVERY form data (any byte strings in every interpolated position) the
+   emitted text tokenizes to exactly the intended elements, attribute names and
+   order; the data occur only as attribute values (the toast as text) *)
+Theorem form_structure_fixed k d : tokenize_form (render_form k d) = Some (intended_of k d).
+Proof.
+  unfold intended_of.
+  pose proof (url_attr_inert_text (fd_url d)) as I1.
+  pose proof (attr_escape_inert_text (fd_msg d)) as I2.
+  pose proof (attr_escape_inert_text (fd_relay d)) as I3.
+  pose proof (attr_escape_inert_text (fd_toast d)) as It.
+  destruct k; cbn [render_form intended_form].
+  - apply tokenize_of_trun. rewrite sp_form_is_text, (sp_form_req_tokens _ _ _ I1 I2 I3).
+    now rewrite decode_url_attr, !decode_attr_escape.
+  - apply tokenize_of_trun. rewrite sp_form_is_text, (sp_form_req_tokens _ _ _ I1 I2 I3).
+    now rewrite decode_url_attr, !decode_attr_escape.
+  - apply tokenize_of_trun. rewrite sp_form_is_text, (sp_form_resp_tokens _ _ _ I1 I2 I3).
+    now rewrite decode_url_attr, !decode_attr_escape.
+  - apply tokenize_of_trun. rewrite idp_response_is_text, (idp_response_tokens _ _ _ I1 I2 I3).
+    now rewrite decode_url_attr, !decode_attr_escape.
+  - apply tokenize_of_trun. rewrite idp_login_is_text.
+    change (html_escape (fd_toast d)) with (attr_escape (fd_toast d)).
+    rewrite (idp_login_tokens _ _ _ _ It I1 I2 I3).
+    rewrite decode_url_attr, !decode_attr_escape.
+    unfold attr_escape at 1. rewrite html_replace_bytewise, nonempty_bytewise, nonempty_nul_to_fffd. reflexivity.
+  - apply tokenize_of_trun. rewrite sp_form_is_text.
+    rewrite (trun_app "<!DOCTYPE html><html><body>").
+    match goal with |- context [trun ?st "<!DOCTYPE html><html><body>"] =>
+      let r := eval vm_compute in (trun st "<!DOCTYPE html><html><body>") in
+      change (trun st "<!DOCTYPE html><html><body>") with r end. cbv beta iota.
+    rewrite trun_app, (sp_form_req_tokens _ _ _ I1 I2 I3). cbv beta iota.
+    rewrite decode_url_attr, !decode_attr_escape.
+    match goal with |- context [trun ?st "</body></html>"] =>
+      let r := eval vm_compute in (trun st "</body></html>") in
+      change (trun st "</body></html>") with r end. cbv beta iota.
+    reflexivity.
+Qed.
